@@ -112,4 +112,46 @@ def isCreationInstance (m : ConcatMode) (entry : FPath) (t : List FsOp) : Bool :
   let n := FinNames.ofEntry entry (cs.getD 0 "") (cs.getD 1 "") (cs.getD 2 "")
   eraseWrites t == eraseWrites (creationTrace m n ⟨[], [], [], [], [], []⟩) && writesToCurrent t none
 
+/-! ### The publication statements of `BasicCreator::finalize`
+
+The places of `finalize` where a temporary file is created (`AtomicOutFile::new`) or published
+(`close_file`: the rename), in the textual order of the source — which is the order of execution in every
+mode, the function being straight-line code with branches.  tools/extract_funcs.py extracts this sequence
+on every run (Generated/FuncsFs.lean) and refuses any other file-system operation in the function. -/
+
+inductive PubStmt where
+  | publishContentFile      -- `container_file.close_file()` of the container around the content pack (not OneFile)
+  | tempEntryContainer      -- `AtomicOutFile::new(&self.outpath)`: the second container (TwoFiles)
+  | publishExtra            -- `extra_pack_file.close_file()` (extra content packs, outside the model)
+  | tempDirectory           -- `AtomicOutFile::new(<out>.jbkd)` (NoConcat)
+  | publishDirectory        -- its `close_file()`
+  | tempEntryManifest       -- `AtomicOutFile::new(&self.outpath)`: the manifest alone (NoConcat)
+  | publishEntryManifest    -- its `close_file()`: the entry point of a NoConcat container
+  | publishEntryContainer   -- `container_file.close_file()` at the end: the entry point (OneFile, TwoFiles)
+  deriving Repr, DecidableEq
+
+/-- the sequence as it stands in the source -/
+def finalizePublications : List PubStmt :=
+  [.publishContentFile, .tempEntryContainer, .publishExtra, .tempDirectory, .publishDirectory,
+   .tempEntryManifest, .publishEntryManifest, .publishEntryContainer]
+
+/-- which of these statements a mode executes (no extra content packs) -/
+def PubStmt.runsIn (m : ConcatMode) : PubStmt → Bool
+  | .publishContentFile => m != .oneFile
+  | .tempEntryContainer => m == .twoFiles
+  | .publishExtra => false
+  | .tempDirectory | .publishDirectory | .tempEntryManifest | .publishEntryManifest => m == .noConcat
+  | .publishEntryContainer => m != .noConcat
+
+/-- the final name a publishing statement renames onto -/
+def PubStmt.target (n : FinNames) : PubStmt → Option FPath
+  | .publishContentFile => some n.jbkc
+  | .publishDirectory => some n.jbkd
+  | .publishEntryManifest | .publishEntryContainer => some n.entry
+  | _ => none
+
+/-- the rename targets of a trace, in order -/
+def renameTargets (t : List FsOp) : List FPath :=
+  t.filterMap (fun op => match op with | .rename _ d => some d | _ => none)
+
 end Jubako
